@@ -451,7 +451,11 @@ def search_ops(prop, failure, seed):
                     vi = pi
                 ta = rnd.choice([1.0, 30.0, 2.5, 7.0])
                 pm = rnd.choice([1.0, 4.0, 100.0, 0.5])
-                jobs.append(f'rate {n} {ti} {bits(ta)} {bits(pm)} {pi} {vi} {bits(rnd.choice([8.0, 3.0, 0.25, 12.5]))} {mi} {bits(rnd.choice([6.0, 1.5, 40.0]))}')
+                # coincidences between the value's amount and the rate's components are a class of their own
+                # (shortcuts that compare amounts and forget the units): a third of the jobs have them
+                v = pm if rnd.random() < 0.33 else rnd.choice([8.0, 3.0, 0.25, 12.5])
+                mv = ta if rnd.random() < 0.33 else rnd.choice([6.0, 1.5, 40.0])
+                jobs.append(f'rate {n} {ti} {bits(ta)} {bits(pm)} {pi} {vi} {bits(v)} {mi} {bits(mv)}')
     elif prop == 'C10':
         n = len(dm['Temperature'].units)
         for ui in range(n):
